@@ -80,3 +80,9 @@ VARIANTS += [
  V("c44-k1-valblk-tag-before-read", "C44", "C27.K1", "sstable/valblk/reader.go",
    "		vbh, err := f.getBlockHandle(vh.BlockNum)\n		if err != nil {\n			return nil, err\n		}", "		f.valueBlockNum = vh.BlockNum\n		vbh, err := f.getBlockHandle(vh.BlockNum)\n		if err != nil {\n			return nil, err\n		}"),
 ]
+VARIANTS += [
+ V("c14-s1-elided-singledel-consumes-setwithdel", "C14", "C17.S1", "internal/compact/iterator.go",
+   "			case base.InternalKeyKindSetWithDelete:\n				// The SingleDelete should behave like a Delete.\n				i.skipInStripe()\n				return\n			case base.InternalKeyKindSet, base.InternalKeyKindMerge:", "			case base.InternalKeyKindSet, base.InternalKeyKindSetWithDelete, base.InternalKeyKindMerge:"),
+ V("c14-g3-moved-table-made-obsolete", "C14", "C39.G3", "compaction.go",
+   "		if _, ok := deletedTables[ve.NewTables[i].Meta.TableNum]; ok {\n			// This file is being moved in this ve to a different level.\n			// Don't mark it as obsolete.\n			continue\n		}\n", ""),
+]
